@@ -3,7 +3,7 @@ NEXT NNext
 CONSTANTS
   Mode = "pairs"
   Depth = 1
-  NFixed = {}
+  NFixed = {"len_reversed_mirrored"}
   NBug = "none"
   NVSpace = "d2"
   NCompoundV = "d1"
